@@ -4,7 +4,7 @@
 Decides one property on /repo's current working tree by running generated programs under monitors.
 exit 0: held on everything explored; exit 1: VIOLATION line(s) printed; exit 2: inconclusive / harness failure.
 """
-import os, sys, json, time, argparse, random, hashlib, tempfile, shutil, concurrent.futures as cf
+import os, sys, json, time, argparse, random, hashlib, tempfile, shutil, zlib, concurrent.futures as cf
 sys.path.insert(0, os.path.dirname(os.path.abspath(__file__)))
 import vlib
 from vlib import VERIF, REPO
@@ -24,6 +24,8 @@ PROFILES = {
     'guards-lo': dict(BASE, pGuardCancel=40, pGuardIssue=400, pIssue=20, maxBatch=1),
     'history':   dict(BASE, pGuardCancel=100, pGuardIssue=150, wReset=1, wExitEnter=1, replica=1),
     'replica':   dict(BASE, pGuardCancel=60, pGuardIssue=40, pIssue=20, maxBatch=2, replica=1, kinds=0x4f),
+    'order':     dict(BASE, pConsume=120, pGuardCancel=50, pGuardIssue=30, wReact=8, wQuery=5, wUpdate=6),
+    'order-lo':  dict(BASE, pConsume=25, wReact=8, wQuery=5, wUpdate=6),
     'payload':   dict(BASE, pGuardCancel=60, pGuardIssue=100, pIssue=80, maxBatch=4),
 }
 
@@ -34,6 +36,7 @@ SHAPE_PROPS = {
     'C03': dict(profiles=['lifecycle', 'mixed'], title='lifecycle callbacks'),
     'C04': dict(profiles=['guards', 'guards-lo'], title='guards / veto / rounds'),
     'C11x': dict(profiles=['mixed'], title='asserts (temporary)'),
+    'C05': dict(profiles=['order', 'order-lo'], title='delivery order'),
     'C09': dict(profiles=['history', 'replica', 'single'], title='history'),
     'C13': dict(profiles=['single', 'mixed'], title='queries'),
     'C14': dict(profiles=['payload'], title='payloads'),
@@ -43,6 +46,7 @@ RULES = {
     'C02': 'evaluations = API operations replayed through the reference interpreter; distinct_nontrivial = distinct (shape, configuration before, request batch, configuration after) tuples in which the configuration changed',
     'C03': 'evaluations = API operations whose callback stream went through the lifecycle automaton; distinct_nontrivial = distinct (shape, active, resumable) configurations reached',
     'C04': 'evaluations = processing steps whose guard rounds were segmented and checked; distinct_nontrivial = distinct (shape, configuration, rounds, vetoes) with at least one vetoed round',
+    'C05': 'evaluations = update()/react()/query() calls whose delivery sequence was compared with the sequence computed from the configuration; distinct_nontrivial = distinct (shape, configuration, call kind, consuming (phase,state) set)',
     'C09': 'evaluations = steps whose previousTransitions()/lastTransitionTo() were compared with the interpreter; distinct_nontrivial = distinct (shape, recorded history, configuration) with a non-empty history',
     'C13': 'evaluations = quiescent query checks; distinct_nontrivial = distinct (shape, configuration before, after) of single-request rounds whose isPending* vectors were compared with the enter/exit callbacks',
     'C14': 'evaluations = payload observations (guards, enter, history, lastTransition); distinct_nontrivial = distinct (shape, id tuple recorded in history)',
@@ -86,7 +90,7 @@ def run_job(job):
     try:
         header, ops, trailer, stray = logparse.parse(logp)
         if header is None: raise RuntimeError('log has no header')
-        knobs = {k: v for k, v in PROFILES[profile].items() if k in ('zeroUtil', 'palette')}
+        knobs = {k: v for k, v in PROFILES[profile].items() if k in ('zeroUtil', 'palette', 'pConsume')}
         chk = check_log.Checker(sj, int(header[3]), knobs, int(header[5]), header[4] == '1')
         chk.run(ops)
         for sv in stray:
@@ -124,7 +128,7 @@ def shape_engine(prop, tier, seed, keep=False):
     for sj, fl, binp in ok:
         for pi, profile in enumerate(conf['profiles']):
             for si in range(T['seeds']):
-                rseed = (seed * 7919 + si * 104729 + pi * 1299709 + (hash(sj['name']) & 0xffff)) % 2000000011 + 1
+                rseed = (seed * 7919 + si * 104729 + pi * 1299709 + (zlib.crc32(sj['name'].encode()) & 0xffff)) % 2000000011 + 1
                 jobs.append((sj, fl, binp, profile, rseed, T['steps'], prop, keep))
     results = []
     with cf.ProcessPoolExecutor(max_workers=vlib.JOBS) as ex:
@@ -166,7 +170,7 @@ def adjudicate(V, prop, results, shapeset, flavours, extra):
         for h in r['cfg_hashes']: cfgs.add(h)
         if len(samples) < 4 and s['samples']:
             sm = dict(s['samples'][-1]); sm.update(shape=r['shape'], desc=r['desc'], flavour=r['flavour'], profile=r['profile'], seed=r['seed']); samples.append(sm)
-    distinct = len(nt) if prop in ('C02', 'C04', 'C09', 'C13', 'C14') else len(cfgs)
+    distinct = len(nt) if prop in ('C02', 'C04', 'C05', 'C08', 'C09', 'C13', 'C14') else len(cfgs)
     cov = {
         'evaluations': evals, 'distinct_nontrivial': distinct, 'rule': RULES[prop], 'samples': samples,
         'runs': len(results), 'runs_completed': completed, 'shapes': [{'name': s['name'], 'desc': s['desc'], 'cfg': s['cfg']} for s in shapeset],
